@@ -39,6 +39,7 @@ type Engine struct {
 	replayCache   map[string]*ReplayResult
 	replayRuns    int
 	noReplay      bool
+	forceBounded  bool
 }
 
 func newEngine(repo, verif string) *Engine {
